@@ -26,7 +26,7 @@ TIMEOUT = {"quick": 900, "thorough": 7200}
 
 def shards(tier, seed, scale):
     n = 16 if tier == "quick" else 64
-    per = int((140 if tier == "quick" else 2500) * scale)
+    per = int((140 if tier == "quick" else 1500) * scale)
     return [{"n": per} for _ in range(n)]
 
 
